@@ -387,7 +387,7 @@ class Ctx:
 
     def write_replay(self, name, obj):
         p = os.path.join(VERIF, "replays", self.prop, "%s-%s.json" % (name, self.tier))
-        with open(p, "w") as f:
+        with open(p, "w", errors="surrogatepass") as f:      # file names that are not UTF-8 travel as surrogate escapes
             json.dump(obj, f, indent=1, ensure_ascii=False)
         return p
 
@@ -452,7 +452,7 @@ class Ctx:
             "wall_s": round(time.time() - self.t0, 2), "violations": violations,
         }
         with open(os.path.join(VERIF, "evidence", self.prop + ".json"), "w") as f:
-            json.dump(ev, f, indent=1, ensure_ascii=False)
+            json.dump(ev, f, indent=1, ensure_ascii=True)
         self.log("obligations %d/%d discharged, %d evaluations, %d distinct non-trivial, %d model disagreements, %d oracle failures (%d known) — %s"
                  % (cov["discharged"], cov["obligations"], self.evaluations, len(self.distinct),
                     len(self.disagreements), len(self.oracle_failures),
